@@ -201,7 +201,9 @@ pub fn run_tree(t: &GTree, start_path: &[usize], params: &[HParams], sink: &mut 
 /// `serialize_string_with_normalizer`: the output for a tree with fullwidth forms of the markup
 /// characters in its character data / attribute values, under a normalizer that turns them into
 /// ASCII, must be the output for the normalised tree without a normalizer (normalise, THEN escape:
-/// '<' and '&' coming from text are never written raw outside script / style; seed C19f).
+/// '<' and '&' coming from text are never written raw outside script / style; seed C19f).  Oracle on the
+/// implementation (proved in the model: C19_normalizer_is_premap); the result under the normalizer is also a
+/// correspondence line (`html string_norm`, model: `fullwidthNorm`).
 fn normalizer_oracle(mk: fn(&mut Xot) -> HVocab, t: &GTree, start_path: &[usize], params: &[HParams], sink: &mut Sink) {
     let mut rng = crate::common::Rng::new(0x4e0f ^ (t.size() as u64 * 7919 + start_path.len() as u64));
     let tf = sprinkle_fullwidth(t, &mut rng);
@@ -239,7 +241,18 @@ fn normalizer_oracle(mk: fn(&mut Xot) -> HVocab, t: &GTree, start_path: &[usize]
         };
         a.into_iter().zip(b).collect()
     };
+    let tree_wire = format!("{} {}", path_str(start_path), tf.wire());
     for (p, (a, b)) in params.iter().zip(results.iter()) {
+        // correspondence: the model's `serializeHtmlStringN fullwidthNorm` on the same tree
+        sink.emit(
+            format!("html string_norm {} {}", p.wire(), tree_wire),
+            match a {
+                Res::Ok(v) => format!("ok {}", enc(v)),
+                Res::Err(e, _) => e.clone(),
+                Res::Panic => "panic".to_string(),
+            },
+        );
+        sink.stat(&format!("normalizer.request.{}", match a { Res::Ok(_) => "ok", Res::Err(..) => "err", Res::Panic => "panic" }));
         let same = match (a, b) {
             (Res::Ok(x), Res::Ok(y)) => x == y,
             (Res::Err(x, _), Res::Err(y, _)) => x == y,
@@ -492,6 +505,59 @@ fn exhaustive(sink: &mut Sink) {
     }
 }
 
+/// The boundary of "with a normalizer = the normalised tree without one" (C19_normalizer_is_premap, hypothesis
+/// `BoolKept`; C19_normalizer_bool_necessary): the boolean-attribute test compares the attribute's local name
+/// with the value AS STORED.  Correspondence lines only (the model threads the normalizer the same way), with
+/// a vocabulary that has an attribute name containing a fullwidth form (U+FF1C is an XML name character).
+fn normalizer_boundary(sink: &mut Sink) {
+    use GValue::*;
+    let mk = |xot: &mut Xot| {
+        let mut hv = HVocab::standard_only(xot);
+        let n = hv.v.add_name(xot, "a\u{ff1c}", 0);
+        (hv, n)
+    };
+    let (wire, n) = {
+        let mut xot = Xot::new();
+        let (hv, n) = mk(&mut xot);
+        (hv.v.wire(), n)
+    };
+    sink.emit(wire, "ok".to_string());
+    let e = |kids: Vec<GTree>| GTree::new(Element(2), kids);
+    let trees = [
+        // value = name as stored: bare name under the normalizer; the normalised value `a<` is not the name
+        e(vec![GTree::leaf(Attribute(n, "a\u{ff1c}".into()))]),
+        e(vec![GTree::leaf(Attribute(n, "A\u{ff1c}".into())), GTree::leaf(Text("\u{ff1c}\u{ff06}".into()))]),
+        // value that only normalises to something else than the name
+        e(vec![GTree::leaf(Attribute(n, "a<".into()))]),
+        e(vec![GTree::leaf(Attribute(n, "\u{ff02}".into())), e(vec![GTree::leaf(Attribute(n, "a\u{ff1c}".into()))])]),
+    ];
+    for (t, normalised) in trees.iter().flat_map(|t| [(t.clone(), false), (map_tree_fullwidth(t), true)]) {
+        let mut xot = Xot::new();
+        let (hv, _) = mk(&mut xot);
+        let root = match build(&mut xot, &hv.v, &t, true) {
+            Ok(r) => r,
+            Err(_) => continue,
+        };
+        for p in [HParams::plain(), HParams { cdata: vec![], indent: Some(vec![]) }] {
+            let h = xot.html5();
+            let show = |r: Res| match r {
+                Res::Ok(v) => format!("ok {}", enc(&v)),
+                Res::Err(e, _) => e,
+                Res::Panic => "panic".to_string(),
+            };
+            if normalised {
+                let r = res_of(guarded(|| h.serialize_string(to_params(&hv, &p), root)));
+                sink.emit(format!("html string {} . {}", p.wire(), t.wire()), show(r));
+            } else {
+                let r = res_of(guarded(|| h.serialize_string_with_normalizer(to_params(&hv, &p), root, FullwidthNormalizer)));
+                sink.emit(format!("html string_norm {} . {}", p.wire(), t.wire()), show(r));
+            }
+            sink.stat("normalizer.boundary.boolean-attribute");
+        }
+    }
+    with_vocab(|hv| sink.emit(hv.v.wire(), "ok".to_string()));
+}
+
 pub fn run(seed: u64, count: usize, tier: &str, sink: &mut Sink) {
     let mut rng = Rng::new(seed ^ 0x47A15);
     with_vocab(|hv| sink.emit(hv.v.wire(), "ok".to_string()));
@@ -509,6 +575,7 @@ pub fn run(seed: u64, count: usize, tier: &str, sink: &mut Sink) {
         run_tree_with(HVocab::standard_only, &e(6, vec![]), &[], &both, sink);
         with_vocab(|hv| sink.emit(hv.v.wire(), "ok".to_string()));
     }
+    normalizer_boundary(sink);
     if tier == "thorough" {
         exhaustive(sink);
     }
